@@ -426,6 +426,8 @@ def set_of_seq_term(seq):
 def bi_set(ex, e):
     if not e.args:
         return SSet(vl.empty_seq())
+    if isinstance(e.args[0], ast.GeneratorExp) and len(e.args[0].generators) == 2:
+        return nested_set_comp(ex, e.args[0])
     a = ex.ev(e.args[0])
     if isinstance(a, SSet):
         return SSet(a.inc, a.exc, a.pred)
@@ -1308,7 +1310,45 @@ def comprehension(ex, e, kind):
 
 
 def nested_set_comp(ex, e):
-    raise Unsupported('nested set comprehension')
+    """{E for x in xs for y in ys(x) [if C]} as a set given by its membership predicate:
+    k is a member iff  exists i, j. 0 <= i < len xs, 0 <= j < len ys(xs[i]), C, k == E"""
+    from .symex import Exec
+    g1, g2 = e.generators
+    if g1.is_async or g2.is_async:
+        raise Unsupported('async comprehension')
+    outer = vl.simp(seq_term(ex, ex.ev(g1.iter), e))
+    i, j = fresh('ci', vl.Int), fresh('cj', vl.Int)
+    sub = Exec(ex.eng, ex.module, None, spec_mode=True)
+    sub.no_assume = True
+    sub.fname = ex.fname
+    sub.env = dict(ex.env)
+    sub.ghost = dict(ex.ghost)
+    sub.old_env = getattr(ex, 'old_env', {})
+    sub.pc = list(ex.pc)            # (kinds decided on this path are known inside, nothing is added)
+    sub.bind_target(g1.target, V(outer[i]), e)
+    c1 = z3.And(*[as_bool(sub.ev(c)) for c in g1.ifs]) if g1.ifs else z3.BoolVal(True)
+    inner = vl.simp(seq_term(sub, sub.ev(g2.iter), e))
+    parts = _concat_parts(inner)
+    if all(z3.is_app(p) and p.decl().kind() == z3.Z3_OP_SEQ_UNIT for p in parts):
+        # an inner sequence of statically known length (t[::2] is (t[0], t[2])): one disjunct per element
+        alts = []
+        for p in parts:
+            sub.bind_target(g2.target, V(p.arg(0)), e)
+            c2 = z3.And(*[as_bool(sub.ev(c)) for c in g2.ifs]) if g2.ifs else z3.BoolVal(True)
+            alts.append((c2, as_val(sub.ev(e.elt))))
+
+        def pred(k):
+            return z3.Exists([i], z3.And(0 <= i, i < z3.Length(outer), c1,
+                                         z3.Or(*[z3.And(c2, k == el) for c2, el in alts])))
+        return SSet(pred=pred)
+    sub.bind_target(g2.target, V(inner[j]), e)
+    c2 = z3.And(*[as_bool(sub.ev(c)) for c in g2.ifs]) if g2.ifs else z3.BoolVal(True)
+    el = as_val(sub.ev(e.elt))
+    guard = z3.And(0 <= i, i < z3.Length(outer), 0 <= j, j < z3.Length(inner), c1, c2)
+
+    def pred(k):
+        return z3.Exists([i, j], z3.And(guard, k == el))
+    return SSet(pred=pred)
 
 
 def flatten(sv):
